@@ -358,6 +358,15 @@ def gen_slab(rng, i):
         if rng.random() < 0.3:
             m['apply spline'] = True
             m['number of points in spline'] = rng.randint(3, 9)
+        # the model's own thermal constants (documented options; default: the world's)
+        if rng.random() < 0.4:
+            m['thermal diffusivity'] = wg.num(rng, 0.4e-6, 2.0e-6)
+        if rng.random() < 0.2:
+            m['specific heat'] = wg.num(rng, 800, 1500)
+        if rng.random() < 0.2:
+            m['thermal expansion coefficient'] = wg.num(rng, 1e-5, 6e-5)
+        if rng.random() < 0.2:
+            m['density'] = wg.num(rng, 2800, 3500)
     f['temperature models'] = [m]
     doc['features'] = [f]
     fn = 's%d.wb' % i
@@ -373,7 +382,14 @@ def gen_slab(rng, i):
         else:
             a = gseg.a0 + u * (gseg.a1 - gseg.a0)
             bh, bv = gseg.ch + math.sin(a) / gseg.kappa, gseg.cv - math.cos(a) / gseg.kappa
-        off = rng.uniform(-above, thick) if rng.random() < 0.8 else rng.choice([0.0, 0.01 * thick, -0.5 * above])
+        r_off = rng.random()
+        if r_off < 0.6:
+            off = rng.uniform(-above, thick)
+        elif r_off < 0.85:
+            off = rng.uniform(-0.05, 0.15) * thick          # across the slab top, where the temperature minimum sits
+            off = max(off, -above)
+        else:
+            off = rng.choice([0.0, 0.01 * thick, -0.5 * above])
         h, v = bh - math.sin(a) * off, bv + math.cos(a) * off
         depth = t['d0'] + v
         if depth < 0 or depth > t['d1'] or abs(h) < 1.0:
@@ -382,7 +398,7 @@ def gen_slab(rng, i):
         fx = t['p0'][0] + ff * (t['p1'][0] - t['p0'][0])
         fy = t['p0'][1] + ff * (t['p1'][1] - t['p0'][1])
         probes.append((off, depth, q3xyz(c, 1, fx + t['n'][0] * h, fy + t['n'][1] * h, ctx.H - depth, depth, PROPS)))
-    return c, {'fn': fn, 'g': g, 'model': m, 'probes': probes, 'name': name, 'segments': f['segments']}
+    return c, {'fn': fn, 'g': g, 'model': m, 'probes': probes, 'name': name, 'segments': f['segments'], 'thick': thick}
 
 
 def check_slab(V, c, t):
@@ -406,12 +422,19 @@ def check_slab(V, c, t):
         V.count()
         T = v[0]
         hot = adiabat(g, depth)           # the slab is the only feature: the temperature painted before is the background adiabat
+        mm = t['model']
+        if mm.get('thermal expansion coefficient', -1) > 0 or mm.get('specific heat', -1) > 0:
+            # a model with its own expansivity / specific heat builds its own background adiabat: either one is a legitimate hot end member
+            hot = max(hot, adiabat(g, depth, alpha=mm.get('thermal expansion coefficient') if mm.get('thermal expansion coefficient', -1) > 0 else None,
+                                   cp=mm.get('specific heat') if mm.get('specific heat', -1) > 0 else None))
         cold = g['Ts']
         slack = 1e-9 * hot
         detail = {'world': t['fn'], 'model': t['model'], 'segments': t['segments'], 'distance_from_slab_top': off, 'depth': depth, 'T': T, 'surface_temperature': cold, 'adiabat': hot, 'globals': g}
         name = t['name'].replace(' ', '-')
-        if t['model'].get('apply spline') and off < 0 and (T != T or T < cold - slack or T > hot + slack):
-            V.violation('envelope:slab-mass-conserving:apply-spline:above-the-slab-top', detail)
+        # support points of the spline are (max distance slab top)/(number of points) apart, the analytic profile has its sharp minimum at the top
+        spacing = t['model'].get('max distance slab top', t['thick']) / float(t['model'].get('number of points in spline', 5))
+        if t['model'].get('apply spline') and off < 1.5 * spacing and (T != T or T < cold - slack or T > hot + slack):
+            V.violation('envelope:slab-mass-conserving:apply-spline:within-1.5-support-intervals-of-the-slab-top', detail)
         elif T != T or T < cold - slack:
             if t['name'] == 'plate model' and T == T and T >= min(cold, 273.15) - 1e-6:
                 V.violation('slab-plate-model:T<surface-temperature:uses-273.15-instead-of-the-surface-temperature', detail)
